@@ -77,6 +77,12 @@ class MailboxProgram(Program):
         else:
             st, ch = self.call(st, 'Channel::<A>::bounded', [VScalar(self.cap)])
         st, env = self.call(st, 'Environment::<A, R>::from_channel', [ch])
+        if getattr(self, 'timeout_cfg', None):
+            # EnvironmentConfig { timeout: Some(ticks), fail_on_timeout } through the real with_config
+            ticks, fail = self.timeout_cfg
+            cfg = VAgg(name='EnvironmentConfig', fields={('f', 0): some(VAgg(name='Duration', extra={'ticks': ticks})), ('f', 1): VScalar(bool(fail))},
+                       extra={'fieldnames': ('timeout', 'fail_on_timeout')})
+            st, env = self.call(st, 'Environment::<A, R>::with_config', [env, cfg])
         if getattr(self, 'stream', False):
             # a stream-attached actor: the stream is a scripted queue fed by client operations (feed / end_stream)
             st.meta['ustream'] = S.mobj(st, 'ustream', items=(), closed=False, ended=False)
@@ -108,6 +114,10 @@ class MailboxProgram(Program):
         elif k == 'ping':
             s2, fut = self.call(st, 'Addr::<A>::ping', [self.href(st, op[1])])
             yield s2, fut
+        elif k == 'sleep':
+            # the client waits for the virtual clock (Spawner::sleep of the runtime): used to create idle gaps
+            leaf = self.sys.m_tokio_sleep(self.eng, st, None, None, [VAgg(name='Duration', extra={'ticks': op[1]})])
+            yield st, leaf
         elif k in ('feed', 'end_stream'):
             us = st.meta['ustream']
             q = S.mget(st, us)
@@ -286,8 +296,8 @@ def oracle_fifo(tr, scripts):
             if open_h is not None:
                 v.append(f"handler for {e[4]} entered while handler for {open_h} still running")
             open_h = e[4]
-        elif e[0] == 'user_done' and e[1] == 'handle':
-            open_h = None
+        elif e[0] in ('user_done', 'user_abandoned') and e[1] == 'handle':
+            open_h = None      # (abandoned = its future was dropped by a handler timeout: it no longer runs)
     ops = [o for o in _ops(tr) if o['kind'] in SUBMIT]
     msg = {}
     for o in ops:
@@ -487,7 +497,7 @@ def oracle_liveness_flags(tr, scripts):
     """C14: stopped()/running()/WeakAddr::stopped() tell the truth relative to the loop's termination"""
     v = []
     term = next((i for i, e in enumerate(tr) if e[0] == 'task_done' and e[1] == 'loop'), None)
-    killed = next((i for i, e in enumerate(tr) if e[0] == 'task_killed' and e[1] == 'loop'), None)
+    killed = next((i for i, e in enumerate(tr) if e[0] in ('task_killed', 'task_panicked') and e[1] == 'loop'), None)
     if killed is not None and (term is None or killed < term):
         term = killed
     for i, e in enumerate(tr):
@@ -531,6 +541,54 @@ def oracle_containment(tr, status, scripts):
     return v
 
 
+def oracle_timeouts(tr, cfg):
+    """C11 at system level (virtual clock): a handler is abandoned only after its full budget T has elapsed since it
+    started, never without a configured timeout; an abandoned handler ends the actor with an error iff fail_on_timeout,
+    otherwise the loop goes on with the next message"""
+    v = []
+    T, fail = cfg if cfg else (None, False)
+    now = 0
+    times = []
+    for e in tr:
+        if e[0] == 'clock':
+            now = e[1]
+        times.append(now)
+    for i, e in enumerate(tr):
+        if not (e[0] == 'user_call' and e[1] == 'handle'):
+            continue
+        n, ctx = e[2], e[3]
+        ts = times[i]
+        done = None
+        nxt = None
+        for j in range(i + 1, len(tr)):
+            x = tr[j]
+            if x[0] == 'user_done' and x[1] == 'handle' and x[2] == n:
+                done = j
+                break
+            if x[0] in ('user_panic', 'task_killed', 'task_panicked', 'panic'):
+                nxt = None
+                done = -1
+                break
+            if (x[0] == 'chan_pop') or (x[0] == 'task_done' and x[1] == 'loop') or (x[0] == 'user_call' and x[3] == ctx and x[2] != n):
+                nxt = j
+                break
+        if done is not None or nxt is None:
+            continue
+        ta = times[nxt]
+        if T is None:
+            v.append(f"handler {n} was abandoned although no timeout is configured")
+            continue
+        if ta - ts < T:
+            v.append(f"handler {n} was abandoned {ta - ts} ticks after it started although the timeout is {T}")
+        x = tr[nxt]
+        ended_err = x[0] == 'task_done' and not str(x[2]).startswith('Ok')
+        if fail and not ended_err:
+            v.append(f"handler {n} timed out with fail_on_timeout but the actor went on ({x[0]} {x[1] if len(x) > 1 else ''})")
+        if not fail and x[0] == 'task_done':
+            v.append(f"handler {n} timed out without fail_on_timeout but the actor ended ({x[2]})")
+    return v
+
+
 def oracle_stream(tr, status, scripts):
     """C13 at system level: a stream-attached actor handles every item the stream yields exactly once, in stream order,
     each to completion; when the stream ends, on stop, or on the last drop: finished then stopped exactly once and the
@@ -571,14 +629,14 @@ def oracle_stream(tr, status, scripts):
     return v
 
 
-def oracle_lifecycle(tr, single=True):
+def oracle_lifecycle(tr, single=True, fail_on_timeout=False):
     """C03 at system level: per actor (context) the callbacks follow the lifecycle protocol - started first and complete
     before anything else, callbacks never overlap, nothing after a failed started, after stopped only a new started
     (restart); for the single-actor programs: the loop ends Ok only right after stopped(), and once it ended nothing runs"""
     v = []
     per = {}
     for i, e in enumerate(tr):
-        if e[0] in ('user_call', 'user_done') and e[1] in ('started', 'stopped', 'handle', 'finished', 'stream'):
+        if e[0] in ('user_call', 'user_done', 'user_abandoned') and e[1] in ('started', 'stopped', 'handle', 'finished', 'stream'):
             per.setdefault(e[3], []).append((i, e))
     for ctx, evs in per.items():
         state = 'new'        # new -> starting -> running -> stopping -> stopped -> starting ... | failed
@@ -606,6 +664,10 @@ def oracle_lifecycle(tr, single=True):
                 else:
                     if state != 'running':
                         v.append(f"{ctx}: a {kind} callback ran in state {state}")
+            elif e[0] == 'user_abandoned':
+                open_cb = None
+                if fail_on_timeout:
+                    state = 'failed'
             else:
                 open_cb = None
                 if kind == 'started':
